@@ -1,7 +1,896 @@
-//! C12 — not implemented yet.
-use vmon::report::Args;
+//! C12 — delete / update / merge_insert follow SQL semantics on the model table.
+//!
+//! Case = random table (unique `id`, a nullable key column `k` whose non-NULL values are unique,
+//! value columns) with an optional btree / bitmap index on the merge key, and a random history of
+//! DELETE WHERE p, UPDATE SET .. WHERE p, APPEND and MERGE (all when-clauses; source batches with
+//! duplicate keys, NULL keys, partial schemas). After every operation the unfiltered scan must
+//! equal the model; count_rows(filter) and count_deleted_rows must be consistent.
 
-pub fn run(_args: &Args) -> i32 {
-    eprintln!("HARNESS-ERROR C12 not implemented");
-    2
+use crate::c16::{judge, reference, Expected, RefOutcome};
+use crate::c19::{lit_to_cell, value_lit, Ix};
+use crate::core::*;
+use arrow_array::RecordBatch;
+use arrow_schema::{Field, Schema};
+use lance::dataset::{MergeInsertBuilder, UpdateBuilder, WhenMatched, WhenNotMatched, WhenNotMatchedBySource, WriteMode, WriteParams};
+use lance::Dataset;
+use lance_encoding::version::LanceFileVersion;
+use lance_index::DatasetIndexExt;
+use serde_json::json;
+use std::collections::{BTreeMap, BTreeSet};
+use std::sync::atomic::{AtomicU64, Ordering as AO};
+use std::sync::Arc;
+use vmon::prng::{fnv_str, Rng};
+use vmon::report::{Args, Report};
+use vmon::table::IdAlloc;
+
+#[derive(Clone, Debug)]
+enum SetExpr {
+    Lit(Lit),
+    /// `col + n`
+    Add(usize, i128),
+    /// `col * n`
+    Mul(usize, i128),
+    /// copy of another column of the same type
+    Col(usize),
+}
+
+impl SetExpr {
+    fn sql(&self, cols: &[ColInfo]) -> String {
+        match self {
+            SetExpr::Lit(l) => l.sql(),
+            SetExpr::Add(c, n) => format!("{} + {}", cols[*c].name, n),
+            SetExpr::Mul(c, n) => format!("{} * {}", cols[*c].name, n),
+            SetExpr::Col(c) => cols[*c].name.clone(),
+        }
+    }
+    fn eval(&self, ty: &ColTy, row: &Row) -> Cell {
+        match self {
+            SetExpr::Lit(l) => lit_to_cell(ty, l),
+            SetExpr::Add(c, n) => match &row[*c] {
+                Cell::Int(v) => Cell::Int(v + n),
+                _ => Cell::Null,
+            },
+            SetExpr::Mul(c, n) => match &row[*c] {
+                Cell::Int(v) => Cell::Int(v * n),
+                _ => Cell::Null,
+            },
+            SetExpr::Col(c) => row[*c].clone(),
+        }
+    }
+}
+
+/// C19's defect seen through a write: NOT over an exact index result selects NULL-key rows
+pub const NOT_NULL_SIG: &str = "index-extra-rows-all-null-in-indexed-col-under-negated-eq-or-in";
+pub const MERGE_NULL_SIG: &str = "merge-on-indexed-key-matches-null-source-keys-with-null-target-keys";
+
+struct Tbl {
+    ds: Dataset,
+    m: Model,
+    ids: IdAlloc,
+    next_k: i64,
+    version: LanceFileVersion,
+    history: Vec<String>,
+    key_ty: ColTy,
+    spec: TableSpec,
+}
+
+fn key_cell(ty: &ColTy, n: i64) -> Cell {
+    match ty {
+        ColTy::Utf8 => Cell::Str(format!("k{n}")),
+        _ => Cell::Int(n as i128),
+    }
+}
+
+impl Tbl {
+    /// n fresh rows: unique id, unique non-NULL k (NULL with probability 1/8 when nullable), random a, b
+    fn fresh_rows(&mut self, rng: &mut Rng, n: usize) -> Vec<Row> {
+        let ids = self.ids.take(n);
+        let b = self.spec.batch(rng, &ids);
+        let mut rows = batch_to_rows(&b);
+        for r in rows.iter_mut() {
+            let null = self.m.cols[1].nullable && rng.chance(1, 8);
+            r[1] = if null {
+                Cell::Null
+            } else {
+                self.next_k += 1;
+                key_cell(&self.key_ty, self.next_k * 3 + 1)
+            };
+        }
+        rows
+    }
+    fn batch_of(&self, rows: &[Row], col_idx: &[usize]) -> RecordBatch {
+        let cols: Vec<ColInfo> = col_idx.iter().map(|c| self.m.cols[*c].clone()).collect();
+        let fields: Vec<Field> = col_idx.iter().map(|c| self.m.schema.field(*c).clone()).collect();
+        let schema = Arc::new(Schema::new(fields));
+        let proj: Vec<Row> = rows.iter().map(|r| col_idx.iter().map(|c| r[*c].clone()).collect()).collect();
+        let refs: Vec<&Row> = proj.iter().collect();
+        rows_to_batch(&cols, schema, &refs)
+    }
+}
+
+pub fn run(args: &Args) -> i32 {
+    let selftest = args.extra.contains_key("selftest");
+    let report = Report::new(
+        args,
+        "exploration",
+        "case = random table (unique id, nullable unique key k, value columns, optional btree/bitmap index on the merge key) and a random history of DELETE / UPDATE / APPEND / MERGE; \
+         the model applies SQL semantics (3VL predicates, NULL keys never match, >1 source row per updated target row => error without effect); after each operation scan == model, counts consistent. \
+         distinct = hash(operation kind and configuration, predicate / source-batch shape); non-trivial = the operation was accepted and changed (or, for expected errors, must not change) a table where it affects neither 0 nor all rows",
+        (75, 900),
+    )
+    .with_min_nontrivial(20);
+    let threads = n_threads();
+    let max_cases: u64 = args.tier.pick(3000, 300_000);
+    let ops_per_case = args.tier.pick(5, 10);
+    let max_rows = args.tier.pick(160, 800);
+    let next = AtomicU64::new(0);
+    let only_case: Option<u64> = args.extra.get("case").and_then(|s| s.parse().ok());
+    let st_fired = AtomicU64::new(0);
+    let st_total = AtomicU64::new(0);
+
+    run_threads(threads, |_t, rt| loop {
+        let mut case = next.fetch_add(1, AO::Relaxed);
+        if let Some(c) = only_case {
+            if case > 0 {
+                break;
+            }
+            case = c;
+        }
+        if case >= max_cases || !report.time_left() {
+            break;
+        }
+        let mut rng = Rng::for_case(args.seed, case);
+        rt.block_on(async {
+            // ---- table
+            let key_ty = rng.pick(&[ColTy::I32, ColTy::I64, ColTy::Utf8]).clone();
+            let vpool = vec![ColTy::I8, ColTy::I16, ColTy::I32, ColTy::I64, ColTy::U8, ColTy::U32, ColTy::F64, ColTy::Utf8, ColTy::Bool, ColTy::Date32];
+            let spec = TableSpec {
+                cols: vec![
+                    ColSpec { name: "k".into(), ty: key_ty.clone(), nullable: rng.chance(3, 4), null_eighths: 0, small_domain: true },
+                    ColSpec { name: "a".into(), ty: rng.pick(&vpool).clone(), nullable: rng.chance(3, 4), null_eighths: *rng.pick(&[0u8, 1, 2, 4]), small_domain: true },
+                    ColSpec { name: "b".into(), ty: rng.pick(&vpool).clone(), nullable: rng.chance(3, 4), null_eighths: *rng.pick(&[0u8, 1, 4]), small_domain: true },
+                ],
+            };
+            let version = *rng.pick(&[LanceFileVersion::V2_0, LanceFileVersion::V2_1]);
+            let model = Model::new(&spec);
+            let mut t = Tbl {
+                ds: match Dataset::write(reader_of(vec![RecordBatch::new_empty(spec.schema())]), &unique_uri("c12"), Some(WriteParams { data_storage_version: Some(version), enable_stable_row_ids: rng.chance(1, 4), ..Default::default() })).await {
+                    Ok(d) => d,
+                    Err(e) => {
+                        report.harness_error(&format!("case {case}: create: {e}"));
+                        return;
+                    }
+                },
+                m: model,
+                ids: IdAlloc::new(0),
+                next_k: 0,
+                version,
+                history: vec![],
+                key_ty: key_ty.clone(),
+                spec: spec.clone(),
+            };
+            let all_cols: Vec<usize> = (0..4).collect();
+            let nfrag = rng.urange(1, 3);
+            let total = rng.urange(12, max_rows);
+            for _ in 0..nfrag {
+                let rows = t.fresh_rows(&mut rng, (total / nfrag).max(2));
+                let b = t.batch_of(&rows, &all_cols);
+                let p = WriteParams { mode: WriteMode::Append, data_storage_version: Some(version), ..Default::default() };
+                if let Err(e) = guarded_op("append", t.ds.append(reader_of(vec![b]), Some(p))).await {
+                    report.harness_error(&format!("case {case}: initial append: {e}"));
+                    return;
+                }
+                for r in rows {
+                    t.m.rows.insert(r[0].as_i64().unwrap(), r);
+                }
+            }
+            // merge key of this case and optional index on it
+            let on_col: usize = if rng.chance(1, 2) { 0 } else { 1 };
+            let on_name = t.m.cols[on_col].name.clone();
+            let ix = *rng.pick(&[None, None, Some(Ix::BTree), Some(Ix::Bitmap)]);
+            if let Some(ix) = ix {
+                let (it, ip) = ix.params();
+                if let Err(e) = guarded(t.ds.create_index(&[on_name.as_str()], it, Some("key_idx".into()), &ip, true)).await {
+                    report.harness_error(&format!("case {case}: create_index: {e:?}"));
+                    return;
+                }
+            }
+            let table_desc = format!(
+                "[{}] on={} index={} v={} stable_row_ids={}",
+                spec.describe(),
+                on_name,
+                ix.map(|i| i.name()).unwrap_or("-"),
+                storage_version_name(version),
+                t.ds.manifest().uses_stable_row_ids()
+            );
+            report.count("tables", 1);
+
+            for opi in 0..ops_per_case {
+                if !report.time_left() {
+                    break;
+                }
+                let m_before = t.m.rows.clone();
+                let gen_cfg = GenCfg { cols: all_cols.clone(), focus: vec![], max_depth: 2, hostile_literals: true, allow_colcmp: false, contains_cols: vec![] };
+                let witness = |t: &Tbl, op: &str, detail: serde_json::Value| json!({"seed": args.seed, "case": case, "op_index": opi, "table": table_desc, "history": t.history, "op": op, "rows_before": m_before.len(), "detail": detail});
+                // every operation yields: description, signature shape, "accepted" flag, expected model (already applied to t.m when accepted)
+                let kind = rng.below(10);
+                let mut op_desc;
+                let mut shape;
+                let mut nontrivial = false;
+                // context for the narrow classification of deviations
+                let mut cur_pred: Option<Pred> = None;
+                let mut merge_null_src = false;
+                // set when this operation leaves duplicate keys in the target (two not-matched source
+                // rows with the same key are both inserted, as in SQL): the history ends after the check
+                let mut last_op_of_case = false;
+                let mut legacy_merge_path = false;
+                let mut cross_ref_update = false;
+                let target_has_null_key = t.m.rows.values().any(|r| r[on_col].is_null());
+                match kind {
+                    // ---------------------------------------------------------------- DELETE
+                    0..=2 => {
+                        let df = match DfRef::new(t.m.to_batch()) {
+                            Ok(d) => d,
+                            Err(e) => {
+                                report.harness_error(&format!("case {case}: datafusion reference: {e}"));
+                                return;
+                            }
+                        };
+                        let gen = PredGen::new(&t.m, gen_cfg.clone());
+                        let pred = gen.gen_top(&mut rng);
+                        let sql = pred.sql(&t.m.cols);
+                        op_desc = format!("DELETE WHERE {sql}");
+                        cur_pred = Some(pred.clone());
+                        shape = format!("delete|{}", pred.shape(&t.m.cols));
+                        let victims = match reference(&pred, &sql, &t.m, &df).await {
+                            RefOutcome::Ok { ids, .. } => ids,
+                            RefOutcome::HarnessError(e) => {
+                                report.harness_error(&format!("case {case} op{opi}: {e}"));
+                                continue;
+                            }
+                        };
+                        match guarded(t.ds.delete(&sql)).await {
+                            Ok(()) => {
+                                for v in &victims {
+                                    t.m.rows.remove(v);
+                                }
+                                nontrivial = !victims.is_empty() && victims.len() < m_before.len();
+                                report.count("deletes", 1);
+                            }
+                            Err(ScanErr::Rejected(_)) => {
+                                report.rejected();
+                                op_desc.push_str(" [rejected]");
+                            }
+                            Err(e) => {
+                                if !selftest {
+                                    let es = format!("{e:?}");
+                                    let sig = if crate::c19::is_rowids_panic(&es) && t.ds.manifest().uses_stable_row_ids() { crate::c19::ROWIDS_PANIC_SIG } else { "delete-failed" };
+                                    report.violation(sig, &es.chars().take(300).collect::<String>(), witness(&t, &op_desc, json!({"error": es})));
+                                }
+                                return;
+                            }
+                        }
+                    }
+                    // ---------------------------------------------------------------- UPDATE
+                    3..=5 => {
+                        let df = match DfRef::new(t.m.to_batch()) {
+                            Ok(d) => d,
+                            Err(e) => {
+                                report.harness_error(&format!("case {case}: datafusion reference: {e}"));
+                                return;
+                            }
+                        };
+                        let gen = PredGen::new(&t.m, gen_cfg.clone());
+                        let pred = gen.gen_top(&mut rng);
+                        let sql = pred.sql(&t.m.cols);
+                        // 1-2 assignments on distinct columns among k (NULL only), a, b
+                        let mut targets = vec![2usize, 3];
+                        if t.m.cols[1].nullable {
+                            targets.push(1);
+                        }
+                        rng.shuffle(&mut targets);
+                        targets.truncate(rng.urange(1, 2));
+                        let mut sets: Vec<(usize, SetExpr)> = vec![];
+                        for c in targets {
+                            let ty = t.m.cols[c].ty.clone();
+                            let e = if c == 1 {
+                                SetExpr::Lit(Lit::Null)
+                            } else {
+                                let wide_int = matches!(ty, ColTy::I16 | ColTy::I32 | ColTy::I64 | ColTy::U32);
+                                let other = if c == 2 { 3 } else { 2 };
+                                match rng.below(6) {
+                                    0 if wide_int => SetExpr::Add(c, rng.range(1, 3) as i128),
+                                    1 if wide_int => SetExpr::Mul(c, 2),
+                                    2 if t.m.cols[other].ty == ty && (t.m.cols[c].nullable || !t.m.cols[other].nullable) => SetExpr::Col(other),
+                                    3 if t.m.cols[c].nullable => SetExpr::Lit(Lit::Null),
+                                    _ => SetExpr::Lit({
+                                        let mut l = value_lit(&mut rng, &gen, c);
+                                        if l.is_null() && !t.m.cols[c].nullable {
+                                            l = value_lit(&mut rng, &gen, c);
+                                        }
+                                        // arithmetic in the model must stay far away from overflow
+                                        if let Lit::Int(v) = &l {
+                                            if v.abs() > 1000 {
+                                                l = Lit::Int(7);
+                                            }
+                                        }
+                                        l
+                                    }),
+                                }
+                            };
+                            if let SetExpr::Lit(Lit::Null) = &e {
+                                if !t.m.cols[c].nullable {
+                                    continue;
+                                }
+                            }
+                            sets.push((c, e));
+                        }
+                        if sets.is_empty() {
+                            continue;
+                        }
+                        cross_ref_update = sets.iter().any(|(c, e)| {
+                            let refd = match e {
+                                SetExpr::Col(o) | SetExpr::Add(o, _) | SetExpr::Mul(o, _) => Some(*o),
+                                _ => None,
+                            };
+                            refd.map(|o| o != *c && sets.iter().any(|(c2, _)| *c2 == o)).unwrap_or(false)
+                        });
+                        let set_sql: Vec<String> = sets.iter().map(|(c, e)| format!("{} = {}", t.m.cols[*c].name, e.sql(&t.m.cols))).collect();
+                        op_desc = format!("UPDATE SET {} WHERE {sql}", set_sql.join(", "));
+                        cur_pred = Some(pred.clone());
+                        shape = format!("update|{}|{}", sets.iter().map(|(c, e)| format!("{:?}:{}", t.m.cols[*c].ty, match e { SetExpr::Lit(Lit::Null) => "null", SetExpr::Lit(_) => "lit", SetExpr::Add(..) => "add", SetExpr::Mul(..) => "mul", SetExpr::Col(_) => "col" })).collect::<Vec<_>>().join(","), pred.shape(&t.m.cols));
+                        let hit = match reference(&pred, &sql, &t.m, &df).await {
+                            RefOutcome::Ok { ids, .. } => ids,
+                            RefOutcome::HarnessError(e) => {
+                                report.harness_error(&format!("case {case} op{opi}: {e}"));
+                                continue;
+                            }
+                        };
+                        let built = (|| -> lance::Result<lance::dataset::UpdateJob> {
+                            let mut b = UpdateBuilder::new(Arc::new(t.ds.clone())).update_where(&sql)?;
+                            for (c, e) in &sets {
+                                b = b.set(&t.m.cols[*c].name, &e.sql(&t.m.cols))?;
+                            }
+                            b.build()
+                        })();
+                        let job = match built {
+                            Ok(j) => j,
+                            Err(_) => {
+                                report.rejected();
+                                t.history.push(format!("{op_desc} [rejected]"));
+                                continue;
+                            }
+                        };
+                        match guarded(job.execute()).await {
+                            Ok(r) => {
+                                t.ds = r.new_dataset.as_ref().clone();
+                                for id in &hit {
+                                    let old = t.m.rows[id].clone();
+                                    let row = t.m.rows.get_mut(id).unwrap();
+                                    for (c, e) in &sets {
+                                        row[*c] = e.eval(&t.m.cols[*c].ty, &old);
+                                    }
+                                }
+                                if r.rows_updated as usize != hit.len() && !selftest {
+                                    let nulls_under_not = {
+                                        let mut neg = vec![];
+                                        pred.negated_leaves(true, &mut neg);
+                                        ix.is_some() && (r.rows_updated as usize) > hit.len() && neg.iter().any(|(k, c)| *c == on_col && matches!(*k, "eq" | "in"))
+                                    };
+                                    report.violation(
+                                        if nulls_under_not { NOT_NULL_SIG } else { "update-reports-wrong-row-count" },
+                                        &format!("rows_updated = {}, model updates {}", r.rows_updated, hit.len()),
+                                        witness(&t, &op_desc, json!({"reported": r.rows_updated, "expected": hit.len()})),
+                                    );
+                                }
+                                nontrivial = !hit.is_empty() && hit.len() < m_before.len();
+                                report.count("updates", 1);
+                            }
+                            Err(ScanErr::Rejected(_)) => {
+                                report.rejected();
+                                op_desc.push_str(" [rejected]");
+                            }
+                            Err(e) => {
+                                if !selftest {
+                                    let es = format!("{e:?}");
+                                    let sig = if crate::c19::is_rowids_panic(&es) && t.ds.manifest().uses_stable_row_ids() { crate::c19::ROWIDS_PANIC_SIG } else { "update-failed" };
+                                    report.violation(sig, &es.chars().take(300).collect::<String>(), witness(&t, &op_desc, json!({"error": es})));
+                                }
+                                return;
+                            }
+                        }
+                    }
+                    // ---------------------------------------------------------------- APPEND
+                    6 => {
+                        let n = rng.urange(1, 40);
+                        let rows = t.fresh_rows(&mut rng, n);
+                        let b = t.batch_of(&rows, &all_cols);
+                        op_desc = format!("APPEND {n} rows");
+                        shape = "append".to_string();
+                        let p = WriteParams { mode: WriteMode::Append, data_storage_version: Some(t.version), ..Default::default() };
+                        match guarded_op("append", t.ds.append(reader_of(vec![b]), Some(p))).await {
+                            Ok(()) => {
+                                for r in rows {
+                                    t.m.rows.insert(r[0].as_i64().unwrap(), r);
+                                }
+                            }
+                            Err(e) => {
+                                report.harness_error(&format!("case {case}: append: {e}"));
+                                return;
+                            }
+                        }
+                    }
+                    // ---------------------------------------------------------------- MERGE
+                    _ => {
+                        let wm = rng.below(10);
+                        let mut when_matched = match wm {
+                            0..=4 => "update_all",
+                            5..=7 => "do_nothing",
+                            8 => "fail",
+                            _ => "update_if",
+                        };
+                        let insert = rng.chance(2, 3);
+                        let by_source = match rng.below(6) {
+                            0 => "delete",
+                            1 => "delete_if",
+                            _ => "keep",
+                        };
+                        // partial schema: key + one value column
+                        let partial = rng.chance(1, 4);
+                        if partial && when_matched == "update_if" {
+                            // the condition language over partial sources is not modelled
+                            when_matched = "update_all";
+                        }
+                        let src_cols: Vec<usize> = if partial {
+                            let v = *rng.pick(&[2usize, 3]);
+                            if on_col == 0 { vec![0, v] } else { vec![1, v] }
+                        } else {
+                            all_cols.clone()
+                        };
+                        // ---- source rows
+                        let live: Vec<i64> = t.m.rows.keys().copied().collect();
+                        let n_match = if live.is_empty() { 0 } else { rng.urange(0, live.len().min(20)) };
+                        let n_new = rng.urange(0, 12);
+                        let n_nullkey = if on_col == 1 && t.m.cols[1].nullable && rng.chance(1, 2) { rng.urange(1, 3) } else { 0 };
+                        let dup_matched = n_match > 0 && rng.chance(1, 4);
+                        let dup_new = on_col == 1 && n_new > 0 && rng.chance(1, 5);
+                        let mut src: Vec<Row> = vec![];
+                        let matched_ids: Vec<i64> = rng.sample_indices(live.len(), n_match).into_iter().map(|i| live[i]).collect();
+                        // matched rows whose key is NULL in the target cannot be matched on k: skip those
+                        let mut fresh = t.fresh_rows(&mut rng, n_match + n_new + n_nullkey + 2);
+                        let mut expect_matched: Vec<(i64, usize)> = vec![]; // (target id, source row index)
+                        for tid in &matched_ids {
+                            let trow = t.m.rows[tid].clone();
+                            if trow[on_col].is_null() {
+                                continue;
+                            }
+                            let mut s = fresh.pop().unwrap();
+                            if on_col == 0 {
+                                s[0] = trow[0].clone(); // same id, fresh k (unique) and values
+                            } else {
+                                s[1] = trow[1].clone(); // same k, fresh id and values
+                            }
+                            expect_matched.push((*tid, src.len()));
+                            src.push(s);
+                        }
+                        if dup_matched && !expect_matched.is_empty() {
+                            let (tid, si) = expect_matched[rng.usize_below(expect_matched.len())];
+                            let mut s = fresh.pop().unwrap();
+                            s[on_col] = src[si][on_col].clone();
+                            if on_col == 0 {
+                                // a second source row with the same id: only meaningful as a duplicate match
+                            }
+                            expect_matched.push((tid, src.len()));
+                            src.push(s);
+                        }
+                        let mut new_rows_idx = vec![];
+                        for _ in 0..n_new {
+                            let mut s = fresh.pop().unwrap();
+                            if s[1].is_null() && on_col == 1 {
+                                t.next_k += 1;
+                                s[1] = key_cell(&t.key_ty, t.next_k * 3 + 1);
+                            }
+                            new_rows_idx.push(src.len());
+                            src.push(s);
+                        }
+                        if dup_new && !new_rows_idx.is_empty() {
+                            let si = new_rows_idx[0];
+                            let mut s = fresh.pop().unwrap();
+                            s[1] = src[si][1].clone();
+                            new_rows_idx.push(src.len());
+                            src.push(s);
+                        }
+                        let mut nullkey_idx = vec![];
+                        for _ in 0..n_nullkey {
+                            if let Some(mut s) = fresh.pop() {
+                                s[1] = Cell::Null;
+                                nullkey_idx.push(src.len());
+                                src.push(s);
+                            }
+                        }
+                        if src.is_empty() {
+                            continue;
+                        }
+                        // shuffle source order
+                        let mut order: Vec<usize> = (0..src.len()).collect();
+                        rng.shuffle(&mut order);
+                        let src_rows: Vec<Row> = order.iter().map(|i| src[*i].clone()).collect();
+                        let batch = t.batch_of(&src_rows, &src_cols);
+                        // ---- conditions
+                        let cond_gen = PredGen::new(&t.m, GenCfg { cols: vec![2, 3], focus: vec![], max_depth: 1, hostile_literals: false, allow_colcmp: false, contains_cols: vec![] });
+                        let update_if: Option<Pred> = if when_matched == "update_if" && !partial { Some(cond_gen.leaf(&mut rng)) } else { None };
+                        let delete_if: Option<Pred> = if by_source == "delete_if" { Some(cond_gen.leaf(&mut rng)) } else { None };
+                        let src_named: Vec<ColInfo> = t.m.cols.iter().map(|c| ColInfo { name: format!("source.{}", c.name), ty: c.ty.clone(), nullable: c.nullable }).collect();
+                        op_desc = format!(
+                            "MERGE on={on_name} matched={when_matched}{} not_matched={} by_source={by_source}{} source: {} rows ({} matching{}, {} new{}, {} NULL-key) cols={:?}",
+                            update_if.as_ref().map(|p| format!("({})", p.sql(&src_named))).unwrap_or_default(),
+                            if insert { "insert" } else { "nothing" },
+                            delete_if.as_ref().map(|p| format!("({})", p.sql(&t.m.cols))).unwrap_or_default(),
+                            src.len(),
+                            expect_matched.len(),
+                            if dup_matched { " incl. duplicate" } else { "" },
+                            new_rows_idx.len(),
+                            if dup_new { " incl. duplicate" } else { "" },
+                            nullkey_idx.len(),
+                            src_cols.iter().map(|c| t.m.cols[*c].name.clone()).collect::<Vec<_>>()
+                        );
+                        shape = format!(
+                            "merge|{on_name}|{when_matched}|{insert}|{by_source}|partial={partial}|dupm={dup_matched}|dupn={dup_new}|nullkey={}|idx={}|m{}n{}",
+                            !nullkey_idx.is_empty(),
+                            ix.map(|i| i.name()).unwrap_or("-"),
+                            expect_matched.len().min(3),
+                            new_rows_idx.len().min(3)
+                        );
+                        // ---- model of SQL MERGE
+                        let mut per_target: BTreeMap<i64, Vec<usize>> = BTreeMap::new();
+                        for (tid, si) in &expect_matched {
+                            per_target.entry(*tid).or_default().push(*si);
+                        }
+                        // source rows that would update (UpdateIf: only those satisfying the condition)
+                        let updating = |si: usize| -> bool {
+                            match (&when_matched, &update_if) {
+                                (&"update_all", _) => true,
+                                (&"update_if", Some(p)) => eval(p, &t.m.cols, &src[si]) == Some(true),
+                                _ => false,
+                            }
+                        };
+                        let ambiguous = per_target.values().any(|v| v.iter().filter(|si| updating(**si)).count() > 1);
+                        let expect_fail = when_matched == "fail" && !expect_matched.is_empty();
+                        let mut after = t.m.rows.clone();
+                        if !ambiguous && !expect_fail {
+                            for (tid, sis) in &per_target {
+                                for si in sis {
+                                    if updating(*si) {
+                                        let old = after.remove(tid).unwrap();
+                                        let mut new = if partial { old.clone() } else { src[*si].clone() };
+                                        if partial {
+                                            for c in &src_cols {
+                                                new[*c] = src[*si][*c].clone();
+                                            }
+                                        }
+                                        after.insert(new[0].as_i64().unwrap(), new);
+                                    }
+                                }
+                            }
+                            if insert {
+                                for si in new_rows_idx.iter().chain(nullkey_idx.iter()) {
+                                    let mut new: Row = if partial { vec![Cell::Null; 4] } else { src[*si].clone() };
+                                    if partial {
+                                        for c in &src_cols {
+                                            new[*c] = src[*si][*c].clone();
+                                        }
+                                    }
+                                    if let Some(id) = new[0].as_i64() {
+                                        after.insert(id, new);
+                                    } else {
+                                        // partial schema without id: cannot be modelled / must be rejected (id is NOT NULL)
+                                        after.insert(i64::MIN + *si as i64, new);
+                                    }
+                                }
+                            }
+                            if by_source != "keep" {
+                                let matched_t: BTreeSet<i64> = per_target.keys().copied().collect();
+                                let dels: Vec<i64> = t
+                                    .m
+                                    .rows
+                                    .iter()
+                                    .filter(|(id, r)| !matched_t.contains(id) && delete_if.as_ref().map(|p| eval(p, &t.m.cols, r) == Some(true)).unwrap_or(true))
+                                    .map(|(id, _)| *id)
+                                    .collect();
+                                for d in dels {
+                                    after.remove(&d);
+                                }
+                            }
+                        }
+                        // ---- run
+                        let mut builder = match MergeInsertBuilder::try_new(Arc::new(t.ds.clone()), vec![on_name.clone()]) {
+                            Ok(b) => b,
+                            Err(e) => {
+                                report.harness_error(&format!("case {case}: merge builder: {e}"));
+                                return;
+                            }
+                        };
+                        builder.when_matched(match when_matched {
+                            "update_all" => WhenMatched::UpdateAll,
+                            "do_nothing" => WhenMatched::DoNothing,
+                            "fail" => WhenMatched::Fail,
+                            _ => match &update_if {
+                                Some(p) => WhenMatched::UpdateIf(p.sql(&src_named)),
+                                None => WhenMatched::UpdateAll,
+                            },
+                        });
+                        builder.when_not_matched(if insert { WhenNotMatched::InsertAll } else { WhenNotMatched::DoNothing });
+                        let bs = match (&by_source, &delete_if) {
+                            (&"delete", _) => Ok(WhenNotMatchedBySource::Delete),
+                            (&"delete_if", Some(p)) => WhenNotMatchedBySource::delete_if(&t.ds, &p.sql(&t.m.cols)),
+                            _ => Ok(WhenNotMatchedBySource::Keep),
+                        };
+                        let bs = match bs {
+                            Ok(b) => b,
+                            Err(_) => {
+                                report.rejected();
+                                continue;
+                            }
+                        };
+                        builder.when_not_matched_by_source(bs);
+                        builder.use_index(rng.chance(3, 4));
+                        merge_null_src = !nullkey_idx.is_empty();
+                        last_op_of_case = dup_new && insert;
+                        // MergeInsertJob::can_use_create_plan: everything else goes through the older Merger
+                        legacy_merge_path = ix.is_some() || by_source != "keep" || partial;
+                        let job = match builder.try_build() {
+                            Ok(j) => j,
+                            Err(_) => {
+                                report.rejected();
+                                t.history.push(format!("{op_desc} [rejected: no-op configuration]"));
+                                continue;
+                            }
+                        };
+                        let reader: Box<dyn arrow_array::RecordBatchReader + Send> = Box::new(reader_of(vec![batch]));
+                        let res = guarded(job.execute_reader(reader)).await;
+                        report.count("merges", 1);
+                        // when_matched=update_if with partial schema was downgraded to update_all above
+                        let effective_update = when_matched == "update_all" || (when_matched == "update_if");
+                        match res {
+                            Ok((ds, stats)) => {
+                                t.ds = ds.as_ref().clone();
+                                if (ambiguous && effective_update) || expect_fail {
+                                    if !selftest {
+                                        report.violation(
+                                            if expect_fail && legacy_merge_path { "merge-when-matched-fail-treated-as-update-on-legacy-merge-path" } else if expect_fail { "merge-when-matched-fail-did-not-fail" } else { "merge-ambiguous-source-match-not-rejected" },
+                                            &format!("merge succeeded although {}", if expect_fail { "WhenMatched::Fail had matches" } else { "two source rows update the same target row" }),
+                                            witness(&t, &op_desc, json!({"stats": format!("{stats:?}")})),
+                                        );
+                                    }
+                                    return;
+                                }
+                                t.m.rows = after;
+                                nontrivial = true;
+                                report.count("merges_accepted", 1);
+                                if !nullkey_idx.is_empty() && insert {
+                                    report.count("merges_with_null_key_source_rows", 1);
+                                }
+                            }
+                            Err(ScanErr::Rejected(e)) | Err(ScanErr::Failed(e)) if (ambiguous && effective_update) || expect_fail => {
+                                // expected error; the state check below verifies "no effect"
+                                let _ = t.ds.checkout_latest().await;
+                                nontrivial = true;
+                                report.count("merges_expected_error", 1);
+                                op_desc.push_str(&format!(" [expected error: {}]", e.chars().take(80).collect::<String>()));
+                            }
+                            Err(ScanErr::Rejected(e)) => {
+                                let _ = t.ds.checkout_latest().await;
+                                report.rejected();
+                                report.count("merges_rejected", 1);
+                                if report.counter("merge_rejected_samples") < 3 {
+                                    report.count("merge_rejected_samples", 1);
+                                    report.sample(json!({"merge_rejected": op_desc, "error": e.chars().take(200).collect::<String>()}));
+                                }
+                                op_desc.push_str(" [rejected]");
+                            }
+                            Err(e) => {
+                                if !selftest {
+                                    let es = format!("{e:?}");
+                                    let sig = if ix.is_some() && on_col == 1 && merge_null_src && target_has_null_key && es.contains("Ambiguous merge insert") {
+                                        MERGE_NULL_SIG
+                                    } else if crate::c19::is_rowids_panic(&es) && t.ds.manifest().uses_stable_row_ids() {
+                                        crate::c19::ROWIDS_PANIC_SIG
+                                    } else if es.contains("Ambiguous merge insert") && ix.is_some() && !t.ds.manifest().uses_stable_row_ids() && t.history.iter().any(|h| h.starts_with("MERGE") && !h.contains("[rejected") && !h.contains("[expected error") && !h.contains("cols=[\"id\", \"k\", \"a\", \"b\"]")) {
+                                        // an earlier partial-schema MERGE rewrote a column of fragments in place; the key index is
+                                        // no longer credited with those fragments but still answers for them, and the scan of
+                                        // "unindexed" fragments returns the same rows again
+                                        "merge-after-partial-schema-merge-finds-target-rows-twice-through-key-index"
+                                    } else if es.contains("Attempt to merge two RecordBatch with different sizes") && ix.is_some() && t.history.iter().any(|h| (h.starts_with("DELETE") || h.starts_with("UPDATE") || h.starts_with("MERGE")) && !h.contains("[rejected")) {
+                                        // the key index still answers for rows deleted (or rewritten) since it was built; the indexed
+                                        // take returns fewer rows than the index mapper promised
+                                        "merge-through-key-index-fails-on-index-hits-for-deleted-rows"
+                                    } else if (es.contains("Ambiguous merge insert") || es.contains("rowid not found in index")) && ix.is_some() && t.ds.manifest().uses_stable_row_ids() && t.history.iter().any(|h| (h.starts_with("UPDATE") || h.starts_with("MERGE")) && !h.contains("[rejected")) {
+                                        // stable row ids: rows rewritten by an earlier UPDATE / MERGE keep their row id; the key
+                                        // index still finds them and the scan of unindexed fragments finds them again
+                                        "index-stale-entry-after-update-with-stable-row-ids"
+                                    } else {
+                                        "merge-failed"
+                                    };
+                                    report.violation(sig, &es.chars().take(300).collect::<String>(), witness(&t, &op_desc, json!({"error": es})));
+                                }
+                                return;
+                            }
+                        }
+                    }
+                }
+                t.history.push(op_desc.clone());
+                // ------------------------------------------------------------ state check
+                let exp = Expected { set: t.m.rows.keys().copied().collect(), seq: None, limit: None, offset: None };
+                let out = match run_scan(&t.ds, &Query::default(), &Knobs::default()).await {
+                    Ok(o) => o,
+                    Err(e) => {
+                        if !selftest {
+                            report.violation("scan-after-operation-failed", &format!("{e:?}").chars().take(300).collect::<String>(), witness(&t, &op_desc, json!({"error": format!("{e:?}")})));
+                        }
+                        return;
+                    }
+                };
+                report.count("rows_compared", out.rows.len() as u64);
+                let mut out = out;
+                if selftest {
+                    if nontrivial && out.rows.pop().is_some() {
+                        st_total.fetch_add(1, AO::Relaxed);
+                        if judge(&out, &exp, &t.m).is_some() {
+                            st_fired.fetch_add(1, AO::Relaxed);
+                        }
+                    }
+                    report.case(None);
+                    continue;
+                }
+                if let Some(v) = judge(&out, &exp, &t.m) {
+                    let got: BTreeSet<i64> = out.ids().into_iter().collect();
+                    let (extra, missing) = set_diff(&got, &exp.set);
+                    let opk = op_desc.split(' ').next().unwrap_or("op").to_lowercase();
+                    // rows whose scanned value differs from the model
+                    let changed: Vec<i64> = out
+                        .rows
+                        .iter()
+                        .filter_map(|r| {
+                            let id = r[0].as_i64()?;
+                            let mr = t.m.rows.get(&id)?;
+                            if mr != r { Some(id) } else { None }
+                        })
+                        .collect();
+                    // (R1) DELETE / UPDATE planned through the key index: NOT over the index result
+                    //      also selects rows whose key is NULL (C19's defect, observed through a write)
+                    let r1 = (opk == "delete" || opk == "update") && ix.is_some() && cur_pred.as_ref().map(|p| {
+                        let mut neg = vec![];
+                        p.negated_leaves(true, &mut neg);
+                        neg.iter().any(|(k, c)| *c == on_col && matches!(*k, "eq" | "in"))
+                    }).unwrap_or(false)
+                        && extra.is_empty()
+                        && missing.iter().chain(changed.iter()).all(|id| m_before.get(id).map(|r| r[on_col].is_null()).unwrap_or(false))
+                        && (!missing.is_empty() || !changed.is_empty());
+                    // (R2) MERGE on an indexed key: the indexed join uses NullEqualsNull
+                    let r2 = opk == "merge" && ix.is_some() && on_col == 1 && merge_null_src && target_has_null_key;
+                    // (R3) UPDATE with several assignments where one reads a column assigned by another
+                    let r3 = opk == "update" && cross_ref_update && extra.is_empty() && missing.is_empty() && !changed.is_empty();
+                    if r3 {
+                        report.violation(
+                            "update-assignment-reads-column-already-updated-by-another-assignment",
+                            &format!("after UPDATE: {}", v.what),
+                            witness(&t, &op_desc, json!({"detail": v.detail, "changed": trunc(&changed, 10)})),
+                        );
+                        return;
+                    }
+                    // (R4) stable row ids + key index + rows rewritten earlier: the index finds moved rows (see C19)
+                    let r4 = opk == "merge" && ix.is_some() && t.ds.manifest().uses_stable_row_ids()
+                        && t.history[..t.history.len().saturating_sub(1)].iter().any(|h| (h.starts_with("UPDATE") || h.starts_with("MERGE")) && !h.contains("[rejected"));
+                    if r4 && !(r1 || r2) {
+                        report.violation(
+                            "index-stale-entry-after-update-with-stable-row-ids",
+                            &format!("after MERGE: {}", v.what),
+                            witness(&t, &op_desc, json!({"detail": v.detail, "extra": trunc(&extra, 10), "missing": trunc(&missing, 10), "changed": trunc(&changed, 10)})),
+                        );
+                        return;
+                    }
+                    if r1 || r2 {
+                        report.violation(
+                            if r1 { NOT_NULL_SIG } else { MERGE_NULL_SIG },
+                            &format!("after {}: {}", opk.to_uppercase(), v.what),
+                            witness(&t, &op_desc, json!({"detail": v.detail, "extra": trunc(&extra, 10), "missing": trunc(&missing, 10), "changed": trunc(&changed, 10)})),
+                        );
+                        return;
+                    }
+                    // narrow class: SQL MERGE inserts source rows whose key is NULL (they match nothing);
+                    // merge_insert drops them (assign_action.rs: source_has_key)
+                    let null_key_rows_missing = opk == "merge"
+                        && extra.is_empty()
+                        && !missing.is_empty()
+                        && missing.iter().all(|id| t.m.rows.get(id).map(|r| r[on_col].is_null() && !m_before.contains_key(id)).unwrap_or(false));
+                    let sig = if null_key_rows_missing { "merge-insert-drops-source-rows-with-null-key".to_string() } else { format!("{opk}-result-{}", v.sig) };
+                    let show = |ids: &[i64], m: &BTreeMap<i64, Row>| -> Vec<String> { ids.iter().take(5).map(|i| m.get(i).map(vmon::table::render_row).unwrap_or_default()).collect() };
+                    let scanned: BTreeMap<i64, Row> = out.rows.iter().filter_map(|r| Some((r[0].as_i64()?, r.clone()))).collect();
+                    report.violation(
+                        &sig,
+                        &format!("after {}: {}", opk.to_uppercase(), v.what),
+                        witness(&t, &op_desc, json!({"detail": v.detail, "extra_rows_scanned": show(&extra, &scanned), "missing_rows_model": show(&missing, &t.m.rows)})),
+                    );
+                    if null_key_rows_missing {
+                        // continue the history on Lance's state
+                        for id in &missing {
+                            t.m.rows.remove(id);
+                        }
+                    } else {
+                        return;
+                    }
+                }
+                // counts
+                match guarded(t.ds.count_rows(None)).await {
+                    Ok(n) if n != t.m.len() => {
+                        report.violation("count-rows-differs-from-table", &format!("count_rows(None) = {n}, table has {}", t.m.len()), witness(&t, &op_desc, json!({"count": n, "expected": t.m.len()})));
+                    }
+                    _ => {}
+                }
+                let physical: Option<usize> = t.ds.get_fragments().iter().map(|f| f.metadata().physical_rows).sum();
+                if let (Some(phys), Ok(del)) = (physical, guarded(t.ds.count_deleted_rows()).await) {
+                    report.count("count_deleted_rows_checked", 1);
+                    if phys < del || phys - del != t.m.len() {
+                        report.violation(
+                            "count-deleted-rows-inconsistent",
+                            &format!("physical rows {phys} - count_deleted_rows {del} != live rows {}", t.m.len()),
+                            witness(&t, &op_desc, json!({"physical": phys, "deleted": del, "live": t.m.len()})),
+                        );
+                    }
+                }
+                if !t.m.rows.is_empty() {
+                    if let Ok(df) = DfRef::new(t.m.to_batch()) {
+                        let gen = PredGen::new(&t.m, gen_cfg.clone());
+                        let p = gen.gen_top(&mut rng);
+                        let sql = p.sql(&t.m.cols);
+                        if let RefOutcome::Ok { ids, .. } = reference(&p, &sql, &t.m, &df).await {
+                            match guarded(t.ds.count_rows(Some(sql.clone()))).await {
+                                Ok(n) => {
+                                    report.count("count_rows_filter_checked", 1);
+                                    if n != ids.len() {
+                                        // classified by C16/C19's known classes when they apply
+                                        let got_sig = if t.m.cols.iter().any(|_| true) && ix.is_some() { "count-rows-filter-differs-indexed-key" } else { "count-rows-filter-differs" };
+                                        let nulls_under_not = {
+                                            let mut neg = vec![];
+                                            p.negated_leaves(true, &mut neg);
+                                            ix.is_some() && neg.iter().any(|(k, c)| *c == on_col && matches!(*k, "eq" | "in")) && n > ids.len()
+                                        };
+                                        let df_full = if p.has_mergeable_inlists_same_column() { df.ids_where_full_sql(&sql).await.ok().map(|s| s.len()) } else { None };
+                                        let sig = if nulls_under_not {
+                                            "index-extra-rows-all-null-in-indexed-col-under-negated-eq-or-in"
+                                        } else if df_full == Some(n) && n > ids.len() {
+                                            crate::c16::DF_NOT_IN_SIG
+                                        } else if df_full == Some(ids.len()) {
+                                            crate::c16::COERCE_SIG
+                                        } else {
+                                            got_sig
+                                        };
+                                        report.violation(sig, &format!("count_rows({sql}) = {n}, reference {}", ids.len()), witness(&t, &op_desc, json!({"filter": sql, "count": n, "expected": ids.len()})));
+                                    }
+                                }
+                                Err(_) => {}
+                            }
+                        }
+                    }
+                }
+                report.case(if nontrivial { Some(fnv_str(&shape)) } else { None });
+                if last_op_of_case {
+                    report.count("cases_ended_after_duplicate_key_insert", 1);
+                    let pick = rng.chance(1, 25);
+                    let _ = pick;
+                    break;
+                }
+                let pick = rng.chance(1, 25);
+                if nontrivial && pick && report.want_sample() {
+                    report.sample(json!({"table": table_desc, "op": op_desc, "rows_before": m_before.len(), "rows_after": t.m.len()}));
+                }
+            }
+        });
+    });
+    if selftest {
+        let (f, t) = (st_fired.load(AO::Relaxed), st_total.load(AO::Relaxed));
+        println!("SELFTEST C12 oracle fired on {f} of {t} corrupted observations");
+        return if t > 0 && f == t { 0 } else { 2 };
+    }
+    report.finish()
 }
